@@ -124,6 +124,9 @@ def make(shape: Dict[str, Any]) -> Any:
                 ctx.check(False, 'async_close did not return within 60 timer steps')
                 return
         returned_at = loop.now_ms
+        if shape.get('stall_max'):
+            # the application blocks the loop right after close returned: everything that was still scheduled runs late, in one go
+            loop.now_ms = loop.now_ms + ctx.int('loop_stall_ms', 0, shape['stall_max'])
         sends_at_return = len(env.sent_log(zc))
         cbs_at_return = len(cb_log)
         if ctx.twin:
@@ -182,6 +185,8 @@ QUICK = {
     'lookup': sh('lookup', close_max=1500),
     'at-purge-tick': sh('registered', close_max=10500, close_first=True),
     'idle-at-purge-tick': sh('raw-listener', close_max=10500, close_first=True),
+    'registering-then-stalled-loop': sh('registering', close_max=800, stall_max=500),
+    'lookup-then-stalled-loop': sh('lookup', close_max=1500, stall_max=500),
     'engine-starting': sh('starting', close_max=1200),
     'engine-starting-registering': sh('starting', 'registering', close_max=1200),
     'own-browser-starting': sh('own-browser', close_max=2000),
